@@ -19,6 +19,7 @@ VARIABLES l, used, sealed, viol
 vars == <<l, used, sealed, viol>>
 Init == l = 1 /\ used = {} /\ sealed = {} /\ viol = {}
 Flag(cond, name) == IF cond THEN {} ELSE {<<l, name>>}
+ZeroKey == "0000000000000000000000000000000000000000000000000000000000000000"
 
 Step ==
   /\ l <= N
@@ -26,6 +27,9 @@ Step ==
      CASE e.ev = "begin" -> used' = {} /\ sealed' = {} /\ viol' = viol
        [] e.ev = "draw"  -> /\ viol' = viol \cup Flag(e.v \notin used, "C07_value_drawn_twice")
                                        \cup Flag(e.ok, "C07_draw_not_recoverable")
+                                       \* C05: key material that is a constant anybody can write down (32 zero bytes) makes
+                                       \* the file readable from public data alone
+                                       \cup Flag(e.v # ZeroKey, "C05_key_material_is_a_public_constant")
                             /\ used' = used \cup {e.v} /\ sealed' = sealed
        [] e.ev = "seal"  -> /\ viol' = viol \cup Flag(<<e.key, e.nonce>> \notin sealed, "C07_key_nonce_pair_reused")
                                        \cup Flag(e.nonce = e.index, "C07_chunk_not_sealed_under_its_index")
